@@ -263,6 +263,13 @@ def class_source(c, prog):
         lines.append(f"{ind}        return '{name}(' + ', '.join(f'{{f}}={{getattr(self, f)!r}}' for f in {[fn for fn, _ in fields]!r}) + ')'")
     else:
         raise ValueError(kind)
+    # behaviour-neutral extras: a class stays the same structured type when it defines __call__ or carries a ClassVar of its own type
+    for x in c.get("extras", []):
+        if x == "call":
+            lines.append(f"{ind}    def __call__(self):")
+            lines.append(f"{ind}        return None")
+        elif x == "classvar_self":
+            lines.append(f"{ind}    ZERO: typing.ClassVar[{c['qualname']!r}] = None")
     return "\n".join(lines)
 
 
